@@ -111,6 +111,16 @@ fn check(src: &str, out: &mut impl Write) {
                     }
                     pos = e;
                 }
+                for (k, (tok, _)) in toks.iter().enumerate() {
+                    if matches!(tok, Tok::Indent) {
+                        // an INDENT opens a logical line: a token of that line follows it (its NEWLINE at least - a line that
+                        // holds only a backslash continuation is such a line, for CPython's tokenizer too)
+                        let next_ok = toks.get(k + 1).map_or(false, |(t, _)| !matches!(t, Tok::Dedent | Tok::Indent | Tok::EndOfFile));
+                        if !next_ok {
+                            problems.push(format!("INDENT (token {}) is not at the start of a logical line", k));
+                        }
+                    }
+                }
                 if indents != 0 {
                     problems.push(format!("INDENT / DEDENT unbalanced at end of input: {}", indents));
                 }
